@@ -955,14 +955,15 @@ Definition read_utf8z (e : endian) (all : list Z) (off : Z) : option (list Z) :=
     else None)).
 
 (* a counted list behind a location descriptor: an empty location is the empty list; u32 count; the entries
-   are read one after the other ([bound]: ensure_count_in_bound against the whole file, entry size 4/… ) *)
-Definition dec_counted {A} (c : icodec A) (e : endian) (all : list Z) (bound : option Z) (size rva : Z) : option (list A) :=
-  obnd (slice all rva size) (fun bs =>
-    if zlen bs =? 0 then Some []
-    else obnd (take 4 bs) (fun hr =>
-           let n := dec_uint e (fst hr) in
-           if match bound with Some es => zlen all <? n * es | None => false end then None
-           else dec_items c e all (Z.to_nat n) (snd hr))).
+   are read one after the other ([bound]: ensure_count_in_bound: count * entry size against the length of the whole file) *)
+Definition counted_body {A} (c : icodec A) (bound : bool) (e : endian) (all bs : list Z) : option (list A) :=
+  if zlen bs =? 0 then Some []
+  else obnd (take 4 bs) (fun hr =>
+         let n := dec_uint e (fst hr) in
+         if bound && (zlen all <? n * lsize (ic_layout c)) then None
+         else dec_items c e all (Z.to_nat n) (snd hr)).
+Definition dec_counted {A} (c : icodec A) (e : endian) (all : list Z) (bound : bool) (size rva : Z) : option (list A) :=
+  obnd (slice all rva size) (counted_body c bound e all).
 Definition enc_counted {A} (c : icodec A) (e : endian) (off : Z) (l : list A) : section :=
   let ssize := 4 + zlen l * lsize (ic_layout c) in
   let r := enc_items c e (off + ssize) l in
@@ -1046,9 +1047,9 @@ Definition cmodule_codec : icodec cmodule := {|
     | VSeq (VInt idx) (VSeq (VSeq (VInt _) (VSeq (VInt rva) VNil)) VNil) =>
         match dec_at L_MINIDUMP_MODULE_CRASHPAD_INFO e all rva with
         | Some [ver; lsz; lrva; ssz; srva; osz; orva_] =>
-            match dec_counted strlist_codec e all (Some 4) lsz lrva,
-                  dec_counted dict_codec e all None ssz srva,
-                  dec_counted annot_codec e all None osz orva_ with
+            match dec_counted strlist_codec e all true lsz lrva,
+                  dec_counted dict_codec e all false ssz srva,
+                  dec_counted annot_codec e all false osz orva_ with
             | Some l, Some s, Some o =>
                 Some (Some {| cm_index := idx; cm_version := ver; cm_list := l; cm_simple := s; cm_objects := o |})
             | _, _, _ => None
@@ -1089,8 +1090,8 @@ Definition dec_crashpad (e : endian) (all bs : list Z) : option mcrashpad :=
       match skipn 22 r with
       | [ssz; srva; msz; mrva] =>
           if ver =? 0 then None
-          else match dec_counted dict_codec e all None ssz srva,
-                     dec_counted cmodule_codec e all (Some (lsize L_MINIDUMP_MODULE_CRASHPAD_INFO_LINK)) msz mrva with
+          else match dec_counted dict_codec e all false ssz srva,
+                     dec_counted cmodule_codec e all true msz mrva with
                | Some s, Some ms => Some {| cp_version := ver; cp_report := firstn 11 r; cp_client := firstn 11 (skipn 11 r);
                                             cp_simple := s; cp_modules := ms |}
                | _, _ => None
